@@ -196,6 +196,14 @@ def run_case(run, drv, case_seed, tier):
         # configuration file route
         cfg = os.path.join(box, "torrentfile.ini")
         out_cfg = os.path.join(box, rng.choice(["cfg.torrent", "cfg.tor", "cfgnoext"]))
+        out_written = out_cfg
+        rel_out = rng.random() < 0.4
+        if rel_out:
+            # a relative `out` means the same as `-o rel`: relative to the WORKING directory,
+            # wherever the configuration file lives
+            os.makedirs(os.path.join(box, "cfgdir"), exist_ok=True)
+            cfg = os.path.join(box, "cfgdir", "torrentfile.ini")
+            out_written = os.path.basename(out_cfg)
         lines = ["[config]"]
         for k, v in opts.items():
             key = CONFIG_KEYS[k]
@@ -209,11 +217,16 @@ def run_case(run, drv, case_seed, tier):
             if k not in opts and rng.random() < 0.5:
                 # switched off explicitly: the same as not given
                 lines.append(f"{k} = " + rng.choice(["false", "False", "no", "No", "off", "OFF", "0"]))
-        lines.append(f"out = {out_cfg}")
+        lines.append(f"out = {out_written}")
         with open(cfg, "w", encoding="utf8") as fd:
             fd.write("\n".join(lines) + "\n")
+        old_cwd = os.getcwd()
         try:
-            impl.cli(["create", "--prog", "0", "--config", "--config-path", cfg, root])
+            os.chdir(box)
+            try:
+                impl.cli(["create", "--prog", "0", "--config", "--config-path", cfg, root])
+            finally:
+                os.chdir(old_cwd)
             got = normalized(open(out_cfg, "rb").read())
             if got != ref:
                 keys = [k for k in set(got) | set(ref) if got.get(k) != ref.get(k)]
@@ -233,7 +246,7 @@ def run_case(run, drv, case_seed, tier):
         toks = ["--prog", "0", "--config", "--config-path", cfg, root]
         drv.ask("cfgrec " + hx(root.encode("utf8")) + " " + pairs + " @ " +
                 " ".join(hx(a.encode("utf8")) for a in toks),
-                ("cfgrec", dict(case, route="config", ini=[l for l in lines]), (opts, root, out_cfg)))
+                ("cfgrec", dict(case, route="config", ini=[l for l in lines]), (opts, root, out_written)))
         run.case([sorted(opts), sorted(shapes)], len(opts) >= 3 or "after-list" in shapes,
                  sample=dict(case, shapes=sorted(shapes)),
                  classes=[f"opts={len(opts)}"] + sorted(shapes) + ["config"])
